@@ -254,58 +254,6 @@ func body(sameClient bool, fine bool) func() {
 		if !sameClient {
 			checkTap("conn2", c2)
 		}
-		// late phase: everybody is subscribed now; one more event reaches both
-		if a2 != nil && b1 != nil && a2.err == nil && b1.err == nil {
-			nA, nB := len(a2.got), len(b1.got)
-			if err := w.Root.Helper.SignalTick(4); err != nil {
-				failf("emit-error", "late emission failed: %v", err)
-			}
-			vrt.Quiesce()
-			lateCheck := func(name string, got []int32, before int, v int32) {
-				n := 0
-				for _, x := range got[before:] {
-					if x == v {
-						n++
-					}
-				}
-				if n > 1 {
-					failf("event-duplicated/"+name, "tick(%d) delivered %d times: %v", v, n, got)
-				} else if n == 0 || len(got) != before+1 {
-					failf("late-event-lost/"+name, "tick(%d) emitted while %s was subscribed: received %v", v, name, got)
-				}
-			}
-			lateCheck("A2", a2.got, nA, 4)
-			lateCheck("B", b1.got, nB, 4)
-			// B leaves: A must be undisturbed
-			b1.stop()
-			vrt.Quiesce()
-			if !b1.closed {
-				failf("channel-not-closed/B", "B's channel still open after cancellation")
-			}
-			nA = len(a2.got)
-			w.Root.Helper.SignalTick(5)
-			vrt.Quiesce()
-			n5 := 0
-			for _, x := range a2.got[nA:] {
-				if x == 5 {
-					n5++
-				}
-			}
-			if n5 > 1 {
-				failf("event-duplicated/A2", "tick(5) delivered %d times: %v", n5, a2.got)
-			} else if n5 == 0 {
-				failf("disturbed-by-other-unsubscribe/A2", "after B cancelled, tick(5) did not reach A: %v", a2.got)
-			}
-			if len(b1.got) > 0 && b1.got[len(b1.got)-1] == 5 {
-				failf("event-after-cancel/B", "B received tick(5) after cancelling: %v", b1.got)
-			}
-			a2.stop()
-			vrt.Quiesce()
-			checkTap("conn1-late", c1)
-			if !sameClient {
-				checkTap("conn2-late", c2)
-			}
-		}
 		fx.Settle()
 		flush()
 		got := func(x *window) string {
@@ -319,9 +267,156 @@ func body(sameClient bool, fine bool) func() {
 	}
 }
 
+// histories: sequential conformance (no concurrency, every step runs to
+// quiescence): two subscribers arrive, leave in either order, then a third one
+// arrives; each window must receive exactly the events emitted while it was
+// open.
+func histories(sameClient bool) func() {
+	return func() {
+		collected = nil
+		w := fx.Start(bus.Yes{})
+		c1 := w.MustConnect()
+		c2 := c1
+		if !sameClient {
+			c2 = w.MustConnect()
+		}
+		pA, pB := c1.Probe(1), c2.Probe(1)
+		order := vrt.ChooseFree(2, "who-leaves-first")
+		third := vrt.ChooseFree(2, "third-subscriber-connection")
+		vrt.Explore()
+		n := int32(0)
+		emit := func() int32 {
+			n++
+			if err := w.Root.Helper.SignalTick(n); err != nil {
+				failf("emit-error", "emitting tick(%d) failed: %v", n, err)
+			}
+			w.Root.Helper.SignalOther(9)
+			vrt.Quiesce()
+			return n
+		}
+		expect := map[string][]int32{}
+		open := map[string]bool{}
+		step := func() {
+			v := emit()
+			for name, o := range open {
+				if o {
+					expect[name] = append(expect[name], v)
+				}
+			}
+		}
+		a := subscribe("A", pA)
+		vrt.Quiesce()
+		open["A"] = true
+		step()
+		b := subscribe("B", pB)
+		vrt.Quiesce()
+		open["B"] = true
+		step()
+		first, second, fn, sn := a, b, "A", "B"
+		if order == 1 {
+			first, second, fn, sn = b, a, "B", "A"
+		}
+		first.stop()
+		vrt.Quiesce()
+		open[fn] = false
+		step()
+		second.stop()
+		vrt.Quiesce()
+		open[sn] = false
+		step()
+		pC := pA
+		if third == 1 {
+			pC = pB
+		}
+		c := subscribe("C", pC)
+		vrt.Quiesce()
+		open["C"] = true
+		step()
+		c.stop()
+		vrt.Quiesce()
+		open["C"] = false
+		step()
+		for name, win := range map[string]*window{"A": a, "B": b, "C": c} {
+			if win.err != nil {
+				continue
+			}
+			if fmt.Sprint(win.got) != fmt.Sprint(expect[name]) && !(len(win.got) == 0 && len(expect[name]) == 0) {
+				clause := "history-events-differ/"
+				for i, v := range win.got {
+					if i > 0 && win.got[i-1] == v {
+						clause = "history-event-duplicated/"
+					}
+				}
+				failf(clause+name, "sequential history (first leaver %s, third subscriber on connection %d): %s received %v, the events emitted while it was subscribed are %v", fn, third+1, name, win.got, expect[name])
+			}
+			if !win.closed {
+				failf("channel-not-closed/"+name, "channel of %s still open after cancellation", name)
+			}
+		}
+		checkTap("conn1", c1)
+		if !sameClient {
+			checkTap("conn2", c2)
+		}
+		fx.Settle()
+		// report the most specific symptom
+		for _, f := range collected {
+			vrt.Failf(f.clause, "%s", f.detail)
+			break
+		}
+		collected = nil
+		vrt.Observe("A=%v B=%v C=%v", a.got, b.got, c.got)
+	}
+}
+
+// three: three subscribers on three connections; the middle one leaves while
+// the emitter is sending.
+func three() {
+	collected = nil
+	w := fx.Start(bus.Yes{})
+	cs := []*fx.Conn{w.MustConnect(), w.MustConnect(), w.MustConnect()}
+	var ws []*window
+	for i, c := range cs {
+		ws = append(ws, subscribe(fmt.Sprintf("S%d", i), c.Probe(1)))
+	}
+	vrt.Quiesce()
+	vrt.Explore()
+	var ems []emission
+	we := vrt.GoWorker("emitter", func() {
+		for n := int32(1); n <= 2; n++ {
+			e := emission{signal: "tick", n: n, start: vrt.Step()}
+			if err := w.Root.Helper.SignalTick(n); err != nil {
+				failf("emit-error", "emitting tick(%d) failed: %v", n, err)
+			}
+			e.end = vrt.Step()
+			ems = append(ems, e)
+		}
+	})
+	wl := vrt.GoWorker("leaver", func() { ws[1].stop() })
+	vrt.Quiesce()
+	fx.Settle(we, wl)
+	for i, x := range ws {
+		x.check(fmt.Sprintf("S%d", i), ems)
+	}
+	for i, c := range cs {
+		checkTap(fmt.Sprintf("conn%d", i), c)
+	}
+	if len(ws[1].got) < 2 {
+		vrt.Flag("left-during-emission")
+	}
+	flush()
+	cs[1].LogTaps("conn-S1")
+	vrt.Observe("S0=%v S1=%v S2=%v", ws[0].got, ws[1].got, ws[2].got)
+}
+
 func init() {
+	reg.Register(&reg.Scenario{Property: "C13", Name: "histories-same-client", Body: histories(true), Quick: 0, Thorough: 1,
+		Doc: "sequential: A subscribes, B subscribes, they leave in either order, C subscribes and leaves; an event after every step; two proxies of one client"})
+	reg.Register(&reg.Scenario{Property: "C13", Name: "histories-two-connections", Body: histories(false), Quick: 0, Thorough: 1,
+		Doc: "same sequential histories with A and B on different connections"})
+	reg.Register(&reg.Scenario{Property: "C13", Name: "three-subscribers-middle-leaves", Body: three, Quick: 2, Thorough: 3,
+		Doc: "three subscribers on three connections; the second cancels while the emitter sends tick(1), tick(2)", MustFlag: []string{"left-during-emission", "required-event"}})
 	reg.Register(&reg.Scenario{Property: "C13", Name: "different-connections", Body: body(false, false), Quick: 1, Thorough: 3,
-		Doc: "A: subscribe,cancel,subscribe || B: subscribe || emitter tick(1) tick(2) other(9) tick(3); A and B on different connections; then tick(4), B leaves, tick(5)", MustFlag: []string{"required-event"}})
+		Doc: "A: subscribe,cancel,subscribe || B: subscribe || emitter tick(1) tick(2) other(9) tick(3); A and B on different connections", MustFlag: []string{"required-event"}})
 	reg.Register(&reg.Scenario{Property: "C13", Name: "same-client", Body: body(true, false), Quick: 1, Thorough: 3,
 		Doc: "same with A and B on two proxies of one client (shared registration)", MustFlag: []string{"required-event"}})
 	reg.Register(&reg.Scenario{Property: "C13", Name: "same-client-statement-level", Body: body(true, true), Quick: -1, Thorough: 2,
